@@ -283,9 +283,18 @@ class TranslatorC(Translator):
                         ">>": "rshift",
                         "a>>": "a_rshift"
                     }
-                    out = "bignum_%s(%s, bignum_to_uint64(%s))" % (
-                        op[expr.op], arg0, arg1
+                    # The C helpers take an int bit count: saturate the
+                    # count in the bignum domain
+                    in_range = "bignum_is_inf_unsigned(%s, bignum_from_uint64(%d))" % (
+                        arg1, expr.size
                     )
+                    count = "bignum_to_uint64(%s)" % arg1
+                    if expr.op == "a>>":
+                        out = "bignum_%s(%s, %s)" % (op[expr.op], arg0, count)
+                    else:
+                        out = "(%s?bignum_%s(%s, %s):bignum_from_uint64(0))" % (
+                            in_range, op[expr.op], arg0, count
+                        )
                     out = "bignum_mask(%s, %d)"% (out, expr.size)
                 return out
 
